@@ -170,6 +170,7 @@ Section Passes.
     destruct (n_ins n) as [|[x|] [|? ?]] eqn:Ei; try (apply Pres_refl; assumption).
     destruct (n_outs n) as [|y [|? ?]] eqn:Eo; try (apply Pres_refl; assumption).
     destruct (is_graph_output m y && (is_graph_input m x || is_initializer m x)); [apply Pres_refl; assumption|].
+    destruct (is_graph_output m y && negb (produced_beside m k x)); [apply Pres_refl; assumption|].
     destruct (get_node_spec _ _ _ Eg) as [Hin Hk].
     assert (Hky : k = y). { unfold has_key, node_key in Hk. rewrite Eo in Hk. apply N.eqb_eq in Hk. auto. }
     assert (Hyout : In y (all_outs m)). { unfold all_outs. apply in_flat_map. exists n. rewrite Eo. simpl. auto. }
@@ -678,7 +679,8 @@ Proof. intros. apply Pres_sig. apply (sequence_pres unit tt (fun _ => tt) triv_i
 
 (* ---------------------------------------------------------------- refutation witnesses (findings) *)
 Definition wit_ident : model := mkModel (mkGraph [1; 2] [] [mkNode ([], [78;101;103], []) [] [Some 1] [3]; mkNode ([], [73;102], []) [([101;108;115;101;95;98;114;97;110;99;104], AGraph 1); ([116;104;101;110;95;98;114;97;110;99;104], AGraph 2)] [Some 2] [4]; mkNode ([], [65;98;115], []) [] [Some 3] [5]] [4; 5]) [(1, mkGraph [] [] [mkNode ([], [73;100;101;110;116;105;116;121], []) [] [Some 1] [6]] [6]); (2, mkGraph [] [] [mkNode ([], [73;100;101;110;116;105;116;121], []) [] [Some 3] [7]] [7])] [].
-Lemma ident_valid_refuted : wfb wit_ident = true /\ outputs_localb wit_ident = true /\ outputs_localb (identity_elim 12 wit_ident) = false.
+(* 0f568df: the witness of the former defect now keeps its outer-scope Identity *)
+Lemma ident_valid_witness : wfb wit_ident = true /\ outputs_localb wit_ident = true /\ outputs_localb (identity_elim 12 wit_ident) = true.
 Proof. vm_compute. repeat split. Qed.
 
 Definition wit_dce : model := mkModel (mkGraph [1; 2; 3; 4; 5] [] [mkNode ([], [65;98;115], []) [] [Some 5] [6]; mkNode ([], STR_BatchNormalization, []) [(STR_training_mode, AData 2 [1%Z])] [Some 1; Some 2; Some 3; Some 4; Some 6] [7; 8; 9]] [7]) [] [].
@@ -690,13 +692,20 @@ Lemma dce_batchnorm_refuted :
   /\ g_outs (m_main (dce wit_dce_schema [] [GMain] 12 wit_dce)) = [7].
 Proof. vm_compute. repeat split. Qed.
 
-(* the CSE key identifies attribute values that differ: +0.0 / -0.0, and NUL-padded string tensors *)
-Lemma cse_key_refuted :
-  (cse_attr_eqb ([97], AData TY_FLOAT [0%Z]) ([97], AData TY_FLOAT [9223372036854775808%Z]) = true
-   /\ attr_eqb (AData TY_FLOAT [0%Z]) (AData TY_FLOAT [9223372036854775808%Z]) = false)
-  /\ (cse_attr_eqb ([97], AData TY_TENSOR [8; 1; 2; 1; 97; 2; 98; 98]%Z) ([97], AData TY_TENSOR [8; 1; 2; 2; 97; 0; 2; 98; 98]%Z) = true
-      /\ attr_eqb (AData TY_TENSOR [8; 1; 2; 1; 97; 2; 98; 98]%Z) (AData TY_TENSOR [8; 1; 2; 2; 97; 0; 2; 98; 98]%Z) = false).
-Proof. vm_compute. repeat split. Qed.
+(* af1d2e4: the CSE key is faithful: equal keys are equal attributes *)
+Lemma cse_attr_eqb_eq a b : cse_attr_eqb a b = true -> a = b.
+Proof.
+  destruct a as [ka a], b as [kb b]. unfold cse_attr_eqb. simpl. intros H. apply andb_prop in H. destruct H as [Hk H].
+  assert (ka = kb) by (revert Hk; apply list_eqb_eq; intros; apply N.eqb_eq). subst kb.
+  destruct a, b; try discriminate.
+  - destruct (N.eqb ty ty0) eqn:E; [|discriminate]. apply N.eqb_eq in E. unfold cse_value_eqb in H. apply Zlist_eqb_eq in H. congruence.
+  - apply andb_prop in H. destruct H as [H1 H2]. apply N.eqb_eq in H1.
+    assert (r = r0) by (revert H2; apply list_eqb_eq; intros; apply N.eqb_eq). congruence.
+Qed.
+Lemma cse_key_signed_zero_distinct :
+  cse_attr_eqb ([97], AData TY_FLOAT [0%Z]) ([97], AData TY_FLOAT [9223372036854775808%Z]) = false
+  /\ cse_attr_eqb ([97], AData TY_TENSOR [8; 1; 2; 1; 97; 2; 98; 98]%Z) ([97], AData TY_TENSOR [8; 1; 2; 2; 97; 0; 2; 98; 98]%Z) = false.
+Proof. vm_compute. split; reflexivity. Qed.
 (* ... while the attribute TYPE is part of the key (the defect fixed by 187cb2f): INT 1 vs FLOAT 1.0 *)
 Lemma cse_key_type_sensitive :
   cse_attr_eqb ([97], AData TY_INT [1%Z]) ([97], AData TY_FLOAT [4607182418800017408%Z]) = false.
